@@ -66,6 +66,9 @@ type Ctx struct {
 
 const maxViolations = 12
 
+// maxHashes caps the per-worker distinct-case set; beyond it the reported distinct count is a lower bound.
+const maxHashes = 1500000
+
 func NewCtx(prop string, seed uint64, tier, config string, worker, nworkers int, only int64, progressPath string) *Ctx {
 	c := &Ctx{Prop: prop, Seed: seed, Tier: tier, Config: config, Worker: worker, NWorkers: nworkers, OnlyCase: only}
 	c.Res = Result{Prop: prop, Config: config, Worker: worker, Tallies: map[string]int64{}, Maxima: map[string]uint64{}, Extra: map[string]any{}}
@@ -123,7 +126,11 @@ func propStream(p string) uint64 { return gen.Hash64([]byte(p)) }
 func (c *Ctx) Eval(nontrivial bool, parts ...[]byte) {
 	c.Res.Evaluations++
 	if nontrivial {
-		c.hashes[gen.Hash64(parts...)] = struct{}{}
+		if len(c.hashes) < maxHashes {
+			c.hashes[gen.Hash64(parts...)] = struct{}{}
+		} else {
+			c.Res.Tallies["distinct-counting-saturated(lower bound reported)"]++
+		}
 	}
 }
 
